@@ -22,6 +22,14 @@ fn op_on<S: Store>(case: &Value) -> Value {
         let operand = if case["d"].is_null() { None } else { Some(case["d"].as_u64().unwrap_or(0) as usize) };
         let sentinel = d.add_number(garnish_lang::simple::SimpleNumber::Integer(7777)).map_err(e)?;
         let u = d.add_unit().map_err(e)?;
+        // via = "clone": the operands are placed and the instruction is executed in a working copy of the configured store
+        if case["via"].as_str() == Some("clone") {
+            match d.working_copy() {
+                Some(Ok(c)) => d = c,
+                Some(Err(m)) => return Err(format!("working copy: {}", m)),
+                None => return Ok(json!({"store": S::name(), "status": "na"})),
+            }
+        }
         d.push_value_stack(u).map_err(e)?;
         d.push_register(sentinel).map_err(e)?;
         let mut built = vec![];
